@@ -34,6 +34,8 @@ def mkView (org kind : String) (u w h o pad : Nat) (B : Int) : Option View :=
     let W0 := if w = 0 then 0 else 2 * w - o % 2
     some ⟨b0, 2 * u, (W0 * u + pad : Nat), w, h⟩
   | "trans" => some ⟨b0, (h * u + pad : Nat), u, w, h⟩
+  | "flipx" => some ⟨b0 + ((w : Int) - 1) * u, -(u : Int), (w * u + pad : Nat), w, h⟩
+  | "flipy" => some ⟨b0 + ((h : Int) - 1) * ((w * u + pad : Nat) : Int), u, -((w * u + pad : Nat) : Int), w, h⟩
   | _ => none
 
 structure Op where
@@ -98,7 +100,7 @@ def model (line : String) : String :=
     | "fill" =>
       -- fill_pixels dispatches planar views to static_for_each over the x iterators; for step iterators (subsampled /
       -- transposed planar views) that does not compile (observed by the compile probe, flag bit 0)
-      if o.dorg == "rgb8p" && (o.dk == "xstep" || o.dk == "trans") && o.pf % 2 == 0 then "err:no-compile"
+      if o.dorg == "rgb8p" && (o.dk == "xstep" || o.dk == "trans" || o.dk == "flipx") && o.pf % 2 == 0 then "err:no-compile"
       else fin "" (implFill m0 o.d o.arg)
     | "equal" => fin (if implEqual m0 o.s o.d (pixEq o.dorg) then " eq=1" else " eq=0") m0
     | "foreach" | "foreachpos" =>
